@@ -47,9 +47,11 @@ def main():
             if b % 3 == 0 and table.n * table.m <= 80 and hasattr(rec, 'ctx') and a.prop != 'C15':
                 # two live contexts with the SAME labels and different tables: build and query a sibling, then
                 # query the older object again (class-level / label-keyed state shared between instances)
-                sib = corpus.Table(table.n, table.m,
-                                   [[j for j in range(1, table.m + 1) if j not in set(r)] for r in table.rows],
-                                   table.tag + ':sibling')
+                sib = rec_ctx.crc_twin(concepts, rec.olabels, rec.plabels, table) if b % 2 == 0 else None
+                if sib is None:
+                    sib = corpus.Table(table.n, table.m,
+                                       [[j for j in range(1, table.m + 1) if j not in set(r)] for r in table.rows],
+                                       table.tag + ':sibling')
                 rec_b = rec_ctx.CtxRecorder(emit, concepts)
                 rec_ctx.drive(rec_b, sib, b, fams, rng, False, nsub=3, nmulti=2, label_variant=lv)
                 rec_ctx.drive(rec, table, b, fams, rng, False, nsub=4, nmulti=2, label_variant=lv, construct=False)
